@@ -17,8 +17,8 @@ import Glom.Model.C01Env2
           "impl":[ {"obs":Obs,"log":[n…]} … ] }                          one per glom event
   Spelling: {"text":"a.b.c"} | {"parts":[Part…]}
   Part:     {"seg":Val} | {"t":[[op,Val]…]} | {"path":[Part…]}
-  Behav:    {"raises":cls} | {"const":Val} | "echo" | {"slot":a} | {"table":a}
-  Handler:  "getattr" | "getitem" | "seq" | {"table":a} | {"raises":cls} | false
+  Behav:    {"raises":cls} | {"const":Val} | "echo" | {"slot":a} | {"table":a} | {"glomtab":a}
+  Handler:  "getattr" | "getitem" | "seq" | {"table":a} | {"glomtab":a} | {"raises":cls} | false
   Obs:      {"ok":Val,"toks":[s…]}
           | {"pae":{"idx":n,"exc":cls,"glom":b,"key":b,"index":b,"attr":b,"exc_ok":b,"path_ok":b,"arg":Val?}}
           | {"other":cls}
@@ -62,6 +62,7 @@ def behavOfJson (j : Json) : Except String Behav := do
     else if let .ok v := j.getObjVal? "const" then return .const (← valOfJson v)
     else if let .ok a := j.getObjValAs? String "slot" then return .slot a
     else if let .ok a := j.getObjValAs? String "table" then return .table a
+    else if let .ok a := j.getObjValAs? String "glomtab" then return .glomTable a
     else throw s!"bad behav {j.compress}"
 
 def optBehav (j : Json) (key : String) : Except String (Option Behav) :=
@@ -90,6 +91,7 @@ def handlerOfJson (j : Json) : Except String (Option Handler) := do
   | .str "seq" => return some .seqItem
   | _ =>
     if let .ok a := j.getObjValAs? String "table" then return some (.table a)
+    else if let .ok a := j.getObjValAs? String "glomtab" then return some (.glomTable a)
     else if let .ok c := j.getObjValAs? String "raises" then return some (.raises c)
     else throw s!"bad handler {j.compress}"
 
